@@ -74,6 +74,15 @@ theorem putTiles_spec : ∀ (ts : List Tile) (pos : Nat), (∀ t ∈ ts, ValidT 
 
 /-! ### positional writes -/
 
+theorem length_writeAt (f : Bytes) (pos : Nat) (b : Bytes) :
+    f.length ≤ (writeAt f pos b).length ∧ pos + b.length ≤ (writeAt f pos b).length := by
+  unfold writeAt
+  by_cases h : f.length < pos
+  · simp only [h, if_true, List.length_append, List.length_take, List.length_drop, List.length_replicate]
+    omega
+  · simp only [h, if_false, List.length_append, List.length_take, List.length_drop]
+    omega
+
 theorem writeAt_end (f b : Bytes) : writeAt f f.length b = f ++ b := by
   unfold writeAt
   simp
@@ -135,5 +144,416 @@ theorem layout (hdr root mta data leaves : Bytes) (hh : hdr.length = 127) (hr : 
       (16384 + mta.length + data.length) leaves) 0 hdr =
     hdr ++ (root ++ (List.replicate (16384 - 127 - root.length) 0 ++ (mta ++ (data ++ leaves)))) :=
   layout_gen hdr root mta data leaves 127 16257 hh hr
+
+/-! ### sorting -/
+
+/-- entries as the writer collects them: tile entries with run length 1, pairwise different valid
+    ids, fields within their Rust types -/
+structure EntriesOk (es : List Entry) : Prop where
+  run : ∀ e ∈ es, e.run = 1
+  ok : ∀ e ∈ es, VtProofs.PMTiles.EntryOk e
+  ids : ∀ e ∈ es, e.id < Hilbert.base 32
+  nodup : (es.map (·.id)).Nodup
+  n : es.length ≤ 10000000000
+
+theorem sorted_perm (es : List Entry) : (sortEntriesFast es).Perm es := List.mergeSort_perm _ _
+
+theorem sorted_strict (es : List Entry) (hn : (es.map (·.id)).Nodup) :
+    (sortEntriesFast es).Pairwise (fun a b => a.id < b.id) := by
+  have h1 : (sortEntriesFast es).Pairwise (fun a b => decide (a.id ≤ b.id) = true) := by
+    apply List.pairwise_mergeSort
+    · intro a b c h1 h2; simp only [decide_eq_true_eq] at *; omega
+    · intro a b; simp only [Bool.or_eq_true, decide_eq_true_eq]; omega
+  have h2 : ((sortEntriesFast es).map (·.id)).Nodup := ((sorted_perm es).map _).nodup_iff.2 hn
+  rw [List.nodup_iff_pairwise_ne, List.pairwise_map] at h2
+  apply List.Pairwise.imp _ (h1.and h2)
+  intro a b ⟨h, hne⟩
+  simp only [decide_eq_true_eq] at h
+  omega
+
+theorem sorted_mem (es : List Entry) (e : Entry) : e ∈ sortEntriesFast es ↔ e ∈ es := (sorted_perm es).mem_iff
+
+/-! ### what the reader needs from the written directory -/
+
+/-- the directory bytes `rootc` (plus `C.leaves`) address exactly the entries `es`, each at its own id -/
+def DirSpec (C : Ctx) (rootc : Bytes) (es : List Entry) : Prop :=
+  ∃ d rawroot, d ≤ 2 ∧ C.K.run .gzip rootc = .ok rawroot ∧ WFDir C d 0 (Hilbert.base 32) rawroot ∧
+    ∀ i t, Addr C d rawroot i t ↔ (t ∈ es ∧ t.id = i)
+
+/-- in-bounds condition of the tile data -/
+def InFile (C : Ctx) (es : List Entry) : Prop :=
+  ∀ e ∈ es, e.len > 0 → e.off + C.dataOff + e.len ≤ C.file.length
+
+theorem nextId_lt_of_sorted {es : List Entry} (hs : es.Pairwise (fun a b => a.id < b.id)) {hi : Nat}
+    (hhi : ∀ e ∈ es, e.id < hi) (k : Nat) (hk : k < es.length) : (es[k]'hk).id + 1 ≤ nextId es k hi := by
+  have := (nextId_le hs hk (fun j hj => hhi _ (List.getElem_mem hj))).1
+  omega
+
+/-- a sorted list of run-length-1 tile entries is a well-formed directory of height 0 that addresses
+    exactly its entries -/
+theorem wf_flat (C : Ctx) (es : List Entry) (raw : Bytes) (lo hi : Nat) (hdec : decDir raw = .ok es)
+    (hs : es.Pairwise (fun a b => a.id < b.id)) (hrun : ∀ e ∈ es, e.run = 1)
+    (hlo : ∀ e ∈ es, lo ≤ e.id) (hhi : ∀ e ∈ es, e.id < hi) (hin : InFile C es) :
+    WFDir C 0 lo hi raw ∧ ∀ i t, Addr C 0 raw i t ↔ (t ∈ es ∧ t.id = i) := by
+  constructor
+  · refine ⟨es, hdec, hs, ?_⟩
+    intro k hk
+    have hm := List.getElem_mem hk
+    refine ⟨hlo _ hm, hhi _ hm, ?_, ?_⟩
+    · intro _
+      rw [hrun _ hm]
+      exact ⟨nextId_lt_of_sorted hs hhi k hk, hin _ hm⟩
+    · intro h0; rw [hrun _ hm] at h0; cases h0
+  · intro i t
+    constructor
+    · rintro ⟨es', hdec', hmem, hr, h1, h2⟩
+      rw [hdec] at hdec'; injection hdec' with e; subst e
+      rw [hrun _ hmem] at h2
+      exact ⟨hmem, by omega⟩
+    · rintro ⟨hmem, rfl⟩
+      exact ⟨es, hdec, hmem, by rw [hrun _ hmem]; omega, Nat.le_refl _, by rw [hrun _ hmem]; omega⟩
+
+/-- the root-only directory (`Case1` of `as_directory`) -/
+theorem dirSpec_small (C : Ctx) (hic : C.ic = .gzip) (enc : Bytes → Bytes) (hK : ∀ b, C.K.gzip (enc b) = some b)
+    (es : List Entry) (ok : EntriesOk es) (hin : InFile C es) (raw : Bytes)
+    (hraw : encDir (sortEntriesFast es) = .ok raw) : DirSpec C (enc raw) es := by
+  have hperm := sorted_perm es
+  have hdec : decDir raw = .ok (sortEntriesFast es) := by
+    apply VtProofs.PMTiles.decDir_encDir _ _ _ raw hraw
+    · intro e he; exact ok.ok e ((sorted_mem es e).1 he)
+    · rw [hperm.length_eq]; exact ok.n
+  have hw := wf_flat C (sortEntriesFast es) raw 0 (Hilbert.base 32) hdec (sorted_strict es ok.nodup)
+    (fun e he => ok.run e ((sorted_mem es e).1 he)) (fun _ _ => Nat.zero_le _)
+    (fun e he => ok.ids e ((sorted_mem es e).1 he))
+    (fun e he => hin e ((sorted_mem es e).1 he))
+  refine ⟨0, raw, by omega, by simp only [Inflate.run, hK], hw.1, ?_⟩
+  intro i t
+  rw [hw.2 i t, sorted_mem]
+
+/-! ### the whole file -/
+
+open VtProofs.VersatilesWrite (StreamOk CellOk cellOk_of_grid nonEmpty slice_mid readRange_of_le i32ok)
+
+/-- what the writer may assume about its source (as for the versatiles writer) -/
+structure GoodStream (levels : List BBox) (stream : BBox → List Tile) (tiles : Nat × Nat × Nat → Option Bytes) : Prop where
+  levels_ok : ∀ L ∈ levels, BoxOk L
+  sorted : levels.Pairwise (fun a b => a.level < b.level)
+  stream_ok : ∀ L ∈ levels, ∀ c ∈ grid256 L, StreamOk c (stream c)
+  sound : ∀ L ∈ levels, ∀ c ∈ grid256 L, ∀ t ∈ stream c, tiles t.1 = some t.2
+  complete : ∀ L ∈ levels, ∀ c ∈ grid256 L, ∀ x y b, c.contains2 x y = true →
+    tiles (x, y, c.level) = some b → ((x, y, c.level), b) ∈ stream c
+  covered : ∀ x y z b, tiles (x, y, z) = some b → ∃ L ∈ levels, L.level = z ∧ L.contains2 x y = true
+
+theorem cid_lt (t : Tile) (h : ValidT t) : cid t < Hilbert.base 32 := by
+  have h1 := VtProofs.Hilbert.enc_lt' t.1.2.2 t.1.1 t.1.2.1
+  have h2 : Hilbert.base (t.1.2.2 + 1) ≤ Hilbert.base 32 := VtProofs.Hilbert.base_mono (by have := h.1; omega)
+  unfold cid Hilbert.coordToTileId
+  rw [VtProofs.Hilbert.base_succ] at h2
+  omega
+
+theorem cid_inj (t u : Tile) (ht : ValidT t) (hu : ValidT u) (h : cid t = cid u) : t.1 = u.1 := by
+  have := VtProofs.Hilbert.coordToTileId_injective ht.2.1 ht.2.2 hu.2.1 hu.2.2 h
+  obtain ⟨⟨tx, ty, tz⟩, tb⟩ := t
+  obtain ⟨⟨ux, uy, uz⟩, ub⟩ := u
+  simpa using this
+
+theorem slice_in_mid (a b c : Bytes) (o l : Nat) (h : o + l ≤ b.length) :
+    slice (a ++ (b ++ c)) ⟨a.length + o, l⟩ = slice b ⟨o, l⟩ := by
+  rw [slice_append_right, VtProofs.VersatilesBlock.slice_append_left _ _ _ h]
+
+theorem slice_at (a b c : Bytes) (n : Nat) (h : a.length = n) : slice (a ++ (b ++ c)) ⟨n, b.length⟩ = b := by
+  subst h; exact slice_mid a b c
+
+theorem slice_in_at (a b c : Bytes) (n o l : Nat) (h : a.length = n) (hol : o + l ≤ b.length) :
+    slice (a ++ (b ++ c)) ⟨n + o, l⟩ = slice b ⟨o, l⟩ := by
+  subst h; exact slice_in_mid a b c o l hol
+
+/-- tiles of one cell are valid coordinates -/
+theorem validT_of_stream {c : BBox} (hc : CellOk c) {ts : List Tile} (hs : StreamOk c ts) : ∀ t ∈ ts, ValidT t := by
+  intro t ht
+  have ⟨h1, h2⟩ := hs.inside t ht
+  rw [contains2_iff] at h1
+  have := hc.xm; have := hc.ym; have := hc.lvl
+  exact ⟨by omega, by rw [h2]; omega, by rw [h2]; omega⟩
+
+/-- coordinates are pairwise different over all cells of the pyramid -/
+theorem all_nodup {levels : List BBox} {stream : BBox → List Tile} {tiles} (gs : GoodStream levels stream tiles) :
+    (((levels.flatMap grid256).flatMap stream).map (·.1)).Nodup := by
+  rw [List.map_flatMap, List.nodup_iff_pairwise_ne, List.pairwise_flatMap]
+  constructor
+  · intro c hc
+    rw [List.mem_flatMap] at hc
+    obtain ⟨L, hL, hcL⟩ := hc
+    have := (gs.stream_ok L hL c hcL).nodup
+    rw [List.nodup_iff_pairwise_ne] at this
+    exact this
+  · have hp := cells_pairwise gs.levels_ok gs.sorted
+    apply List.Pairwise.imp_of_mem _ hp
+    intro c d hc hd hk x hx y hy hxy
+    rw [List.mem_flatMap] at hc hd
+    obtain ⟨L1, hL1, hc1⟩ := hc
+    obtain ⟨L2, hL2, hd2⟩ := hd
+    rw [List.mem_map] at hx hy
+    obtain ⟨t, ht, rfl⟩ := hx
+    obtain ⟨u, hu, rfl⟩ := hy
+    have ⟨a1, a2⟩ := (gs.stream_ok L1 hL1 c hc1).inside t ht
+    have ⟨b1, b2⟩ := (gs.stream_ok L2 hL2 d hd2).inside u hu
+    have ⟨p1, p2, _⟩ := tile_in_cell (gs.levels_ok L1 hL1) hc1 a1
+    have ⟨q1, q2, _⟩ := tile_in_cell (gs.levels_ok L2 hL2) hd2 b1
+    apply hk
+    simp only [key]
+    obtain ⟨⟨tx, ty, tz⟩, tb⟩ := t
+    obtain ⟨⟨ux, uy, uz⟩, ub⟩ := u
+    simp only at hxy a2 b2 p1 p2 q1 q2
+    injection hxy with e1 e2
+    injection e2 with e2 e3
+    subst e1 e2 e3
+    rw [← p1, ← p2, ← q1, ← q2, ← a2, ← b2]
+
+theorem compOfCode_compCode (c : TComp) : compOfCode (compCode c) = .ok c := by cases c <;> rfl
+theorem compCode_le (c : TComp) : compCode c ≤ 4 := by cases c <;> decide
+theorem typeCode_le (f : TileFormat) : typeCode f ≤ 5 := by cases f <;> decide
+
+/-- the directory provider: what `as_directory` must deliver for the collected entries (discharged by
+    `dirSpec_small` for root-only directories and by `dirSpec_leaves` for the root/leaf split) -/
+def DirProvider (K : Inflate) (enc : Bytes → Bytes) : Prop :=
+  ∀ (C : Ctx) (es : List Entry) (root leaves : Bytes), EntriesOk es → InFile C es → C.K = K → C.ic = .gzip →
+    C.leaves = leaves → C.file.length < U64 → leaves.length ≤ C.file.length →
+    asDirectory enc (16384 - 127) es = .ok (root, leaves) →
+    root.length ≤ 16384 - 127 ∧ DirSpec C root es
+
+/-- **the written file is valid** (`ValidPMTiles`) for the source's map of non-empty tiles -/
+theorem write_valid (K : Inflate) (enc : Bytes → Bytes) (s : Source) (tiles : Nat × Nat × Nat → Option Bytes)
+    (gs : GoodStream s.levels s.stream tiles)
+    (hmeta : ∃ raw, K.run .gzip s.metaB = .ok raw)
+    (hcz : s.cz < 256)
+    (hgeo : i32ok s.minlon ∧ i32ok s.minlat ∧ i32ok s.maxlon ∧ i32ok s.maxlat ∧ i32ok s.clon ∧ i32ok s.clat)
+    (hcount : ((s.levels.flatMap grid256).flatMap s.stream).length ≤ 10000000000)
+    (file : Bytes) (hw : write enc s = .ok file) (hsize : file.length < U64)
+    (hdir : DirProvider K enc) :
+    ValidPMTiles K file (fmtOfType (typeCode s.fmt)) s.comp (fun p => nonEmpty (tiles p)) := by
+  -- the blocks are a permutation of the grid cells
+  have hperm : ((s.levels.flatMap grid256).mergeSort (fun a b => decide (blockKey a ≤ blockKey b))).Perm
+      (s.levels.flatMap grid256) := List.mergeSort_perm _ _
+  generalize hblocks : (s.levels.flatMap grid256).mergeSort (fun a b => decide (blockKey a ≤ blockKey b)) = blocks at hperm
+  have hcellOf : ∀ c ∈ blocks, ∃ L ∈ s.levels, c ∈ grid256 L := by
+    intro c hc
+    have := hperm.mem_iff.1 hc
+    rw [List.mem_flatMap] at this
+    exact this
+  have hallPerm : (blocks.flatMap s.stream).Perm ((s.levels.flatMap grid256).flatMap s.stream) :=
+    hperm.flatMap_right _
+  have hvalid : ∀ t ∈ blocks.flatMap s.stream, ValidT t := by
+    intro t ht
+    rw [List.mem_flatMap] at ht
+    obtain ⟨c, hc, htc⟩ := ht
+    obtain ⟨L, hL, hcL⟩ := hcellOf c hc
+    exact validT_of_stream (cellOk_of_grid (gs.levels_ok L hL) hcL) (gs.stream_ok L hL c hcL) t htc
+  obtain ⟨es, data, hput, hids, hst1, hst2⟩ := putTiles_spec (blocks.flatMap s.stream) 0 hvalid
+  unfold write at hw
+  simp only [hblocks] at hw
+  split at hw
+  · cases hw
+  · rw [hput] at hw
+    simp only at hw
+    cases hdirres : asDirectory enc (16384 - 127) es with
+    | err => rw [hdirres] at hw; simp at hw
+    | panic => rw [hdirres] at hw; simp at hw
+    | ok p =>
+      obtain ⟨root, leaves⟩ := p
+      rw [hdirres] at hw
+      simp only at hw
+      injection hw with hfile
+      generalize hhd : mkHeader s root.length leaves.length data.length es.length = hd at hfile
+      have hl127 : (encHeader hd).length = 127 := VtProofs.PMTiles.length_encHeader hd
+      have hlen_es : es.length = (blocks.flatMap s.stream).length := by
+        have := congrArg List.length hids
+        simpa using this
+      have hnodup : (es.map (·.id)).Nodup := by
+        rw [hids]
+        have h1 : ((blocks.flatMap s.stream).map (·.1)).Nodup :=
+          (hallPerm.map _).nodup_iff.2 (all_nodup gs)
+        rw [List.nodup_iff_pairwise_ne, List.pairwise_map] at h1 ⊢
+        apply List.Pairwise.imp_of_mem _ h1
+        intro a b ha hb hne heq
+        exact hne (cid_inj a b (hvalid a ha) (hvalid b hb) heq)
+      have hb32 := VtProofs.Hilbert.base32_lt
+      -- sizes of the pieces inside the file (valid for every outcome of the positional writes)
+      have hfl : data.length ≤ file.length ∧ leaves.length ≤ file.length := by
+        rw [← hfile]
+        generalize hf1 : writeAt [] 16384 s.metaB = f1
+        generalize hf2 : writeAt f1 (16384 + s.metaB.length) data = f2
+        generalize hf3 : writeAt f2 127 root = f3
+        generalize hf4 : writeAt f3 (16384 + s.metaB.length + data.length) leaves = f4
+        have l2 := length_writeAt f1 (16384 + s.metaB.length) data
+        have l3 := length_writeAt f2 127 root
+        have l4 := length_writeAt f3 (16384 + s.metaB.length + data.length) leaves
+        have l5 := length_writeAt f4 0 (encHeader hd)
+        rw [hf2] at l2; rw [hf3] at l3; rw [hf4] at l4
+        omega
+      have hesok : EntriesOk es := by
+        refine ⟨?_, ?_, ?_, hnodup, ?_⟩
+        · intro e he; obtain ⟨t, _, hs⟩ := hst1 e he; exact hs.2.1
+        · intro e he
+          obtain ⟨t, ht, a1, a2, a3, a4, a5, a6⟩ := hst1 e he
+          have := cid_lt t (hvalid t ht)
+          exact ⟨by rw [a1]; unfold U64; omega, by omega, by rw [a2]; unfold U32; omega⟩
+        · intro e he
+          obtain ⟨t, ht, a1, _⟩ := hst1 e he
+          rw [a1]; exact cid_lt t (hvalid t ht)
+        · rw [hlen_es, hallPerm.length_eq]; exact hcount
+      -- the directory
+      have hin0 : ∀ e ∈ es, e.off + e.len ≤ data.length := by
+        intro e he
+        obtain ⟨t, _, a1, a2, a3, a4, a5, a6⟩ := hst1 e he
+        omega
+      have hrootle : root.length ≤ 16384 - 127 := by
+        -- the bound does not depend on the context: use a context whose file is long enough
+        have := hdir ⟨K, .gzip, leaves, file, 0⟩ es root leaves hesok
+          (by intro e he _; have := hin0 e he; simp only; omega) rfl rfl rfl hsize hfl.2 hdirres
+        exact this.1
+      have hlayout := layout (encHeader hd) root s.metaB data leaves hl127 hrootle
+      rw [hlayout] at hfile
+      have hpad : (16384 - 127 - root.length) + root.length + 127 = 16384 := by omega
+      -- the file as prefix ++ (piece ++ suffix) for each piece
+      have hflen : file.length = 16384 + s.metaB.length + data.length + leaves.length := by
+        rw [← hfile]
+        simp only [List.length_append, List.length_replicate, hl127]
+        omega
+      let C : Ctx := ⟨K, .gzip, leaves, file, 16384 + s.metaB.length⟩
+      have hinfile : InFile C es := by
+        intro e he _
+        have := hin0 e he
+        show e.off + (16384 + s.metaB.length) + e.len ≤ file.length
+        omega
+      obtain ⟨_, d, rawroot, hd2, hrun, hwf, haddr⟩ := hdir C es root leaves hesok hinfile rfl rfl rfl hsize hfl.2 hdirres
+      -- header fields
+      have hdroot : hd.root = ⟨127, root.length⟩ := by rw [← hhd]; rfl
+      have hdmeta : hd.metaR = ⟨16384, s.metaB.length⟩ := by rw [← hhd]; rfl
+      have hdleaf : hd.leaf = ⟨16384 + s.metaB.length + data.length, leaves.length⟩ := by rw [← hhd]; rfl
+      have hddata : hd.data = ⟨16384 + s.metaB.length, data.length⟩ := by rw [← hhd]; rfl
+      have hdic : hd.icomp = 2 := by rw [← hhd]; rfl
+      have hdtc : hd.tcomp = compCode s.comp := by rw [← hhd]; rfl
+      have hdtt : hd.ttype = typeCode s.fmt := by rw [← hhd]; rfl
+      have hdok : VtProofs.PMTiles.HeaderOk hd := by
+        have hU : U64 = 256 ^ 8 := by decide
+        have hz1 : (s.levels.head?.map (·.level)).getD 0 < 256 := by
+          cases hh : s.levels.head? with
+          | none => simp
+          | some lo => simp only [Option.map_some, Option.getD_some]; have := (gs.levels_ok lo (List.mem_of_head? hh)).lvl; omega
+        have hz2 : (s.levels.getLast?.map (·.level)).getD 14 < 256 := by
+          cases hh : s.levels.getLast? with
+          | none => simp
+          | some hi => simp only [Option.map_some, Option.getD_some]; have := (gs.levels_ok hi (List.mem_of_getLast? hh)).lvl; omega
+        have := compCode_le s.comp
+        have := typeCode_le s.fmt
+        have := hesok.n
+        rw [← hhd]
+        refine ⟨?_, ?_, ?_, ?_, ?_, ?_, ?_, ?_, ?_, ?_, ?_, ?_, ?_, ?_, ?_, ?_, ?_, hgeo.1, hgeo.2.1, hgeo.2.2.1, hgeo.2.2.2.1,
+          hgeo.2.2.2.2.1, hgeo.2.2.2.2.2⟩ <;> simp only [mkHeader] <;> omega
+      -- reading the pieces back
+      have hrd_hdr : readRange file ⟨0, 127⟩ = .ok (encHeader hd) := by
+        rw [readRange_of_le file _ (by simp only; omega) hsize]
+        congr 1
+        rw [← hfile]
+        unfold slice
+        simp only [List.drop_zero]
+        exact List.take_left' hl127
+      have hrd_root : readRange file ⟨127, root.length⟩ = .ok root := by
+        rw [readRange_of_le file _ (by simp only; omega) hsize]
+        congr 1
+        rw [← hfile, ← hl127]
+        exact slice_mid _ _ _
+      have hrd_meta : readRange file ⟨16384, s.metaB.length⟩ = .ok s.metaB := by
+        rw [readRange_of_le file _ (by simp only; omega) hsize]
+        congr 1
+        have e : file = (encHeader hd ++ root ++ List.replicate (16384 - 127 - root.length) 0) ++ (s.metaB ++ (data ++ leaves)) := by
+          rw [← hfile]; simp only [List.append_assoc]
+        have el : (encHeader hd ++ root ++ List.replicate (16384 - 127 - root.length) (0 : UInt8)).length = 16384 := by
+          simp only [List.length_append, List.length_replicate, hl127]; omega
+        rw [e]
+        exact slice_at _ _ _ _ el
+      have hrd_leaf : readRange file ⟨16384 + s.metaB.length + data.length, leaves.length⟩ = .ok leaves := by
+        rw [readRange_of_le file _ (by simp only; omega) hsize]
+        congr 1
+        have e : file = (encHeader hd ++ root ++ List.replicate (16384 - 127 - root.length) 0 ++ s.metaB ++ data) ++ (leaves ++ []) := by
+          rw [← hfile]; simp only [List.append_assoc, List.append_nil]
+        have el : (encHeader hd ++ root ++ List.replicate (16384 - 127 - root.length) (0 : UInt8) ++ s.metaB ++ data).length
+            = 16384 + s.metaB.length + data.length := by
+          simp only [List.length_append, List.length_replicate, hl127]; omega
+        rw [e]
+        exact slice_at _ _ _ _ el
+      have hslice_data : ∀ o l, o + l ≤ data.length → slice file ⟨o + (16384 + s.metaB.length), l⟩ = slice data ⟨o, l⟩ := by
+        intro o l hol
+        have e : file = (encHeader hd ++ root ++ List.replicate (16384 - 127 - root.length) 0 ++ s.metaB) ++ (data ++ leaves) := by
+          rw [← hfile]; simp only [List.append_assoc]
+        have el : (encHeader hd ++ root ++ List.replicate (16384 - 127 - root.length) (0 : UInt8) ++ s.metaB).length
+            = 16384 + s.metaB.length := by
+          simp only [List.length_append, List.length_replicate, hl127]; omega
+        rw [e, Nat.add_comm o]
+        exact slice_in_at _ _ _ _ o l el hol
+      obtain ⟨mraw, hmraw⟩ := hmeta
+      refine ⟨hsize, hd, .gzip, rawroot, leaves, d, ⟨encHeader hd, hrd_hdr, VtProofs.PMTiles.decHeader_encHeader hd hdok⟩,
+        by rw [hdic]; rfl, ⟨s.metaB, mraw, by rw [hdmeta]; exact hrd_meta, hmraw⟩,
+        ⟨root, by rw [hdroot]; exact hrd_root, hrun⟩, by rw [hdleaf]; exact hrd_leaf,
+        by rw [hdtc]; exact compOfCode_compCode s.comp, by rw [hdtt], hd2, by rw [hddata]; exact hwf, ?_⟩
+      -- the stored tiles are exactly the non-empty source tiles
+      intro x y z blob hz hx hy
+      rw [hddata]
+      show nonEmpty (tiles (x, y, z)) = some blob ↔ _
+      constructor
+      · intro hm
+        simp only [nonEmpty] at hm
+        cases ht : tiles (x, y, z) with
+        | none => rw [ht] at hm; simp at hm
+        | some b0 =>
+          rw [ht] at hm
+          simp only at hm
+          by_cases hb0 : b0 = []
+          · simp [hb0] at hm
+          · simp only [hb0, if_false] at hm
+            injection hm with hm
+            subst hm
+            obtain ⟨L, hL, hLz, hLc⟩ := gs.covered x y z b0 ht
+            have hLok := gs.levels_ok L hL
+            have ⟨hcg, hcc⟩ := cell_of_tile hLok hLc
+            generalize hcdef : cell L (x / 256) (y / 256) = c at hcg hcc
+            have hclevel : c.level = z := by rw [key_level hcg]; exact hLz
+            have htin : ((x, y, z), b0) ∈ s.stream c := by
+              have := gs.complete L hL c hcg x y b0 hcc (by rw [hclevel]; exact ht)
+              rw [hclevel] at this; exact this
+            have hcb : c ∈ blocks := hperm.mem_iff.2 (List.mem_flatMap.2 ⟨L, hL, hcg⟩)
+            have hall : ((x, y, z), b0) ∈ blocks.flatMap s.stream := List.mem_flatMap.2 ⟨c, hcb, htin⟩
+            obtain ⟨e, he, a1, a2, a3, a4, a5, a6⟩ := hst2 _ hall
+            refine ⟨e, (haddr _ e).2 ⟨he, a1⟩, ?_, ?_⟩
+            · rw [a3]
+              cases b0 with
+              | nil => exact absurd rfl hb0
+              | cons _ _ => simp
+            · simp only [Nat.sub_zero] at a5 a6
+              rw [hslice_data e.off e.len a5, a6]
+      · rintro ⟨t, hat, hl, hblob⟩
+        obtain ⟨hte, htid⟩ := (haddr _ t).1 hat
+        obtain ⟨u, hu, a1, a2, a3, a4, a5, a6⟩ := hst1 t hte
+        simp only [Nat.sub_zero] at a5 a6
+        have hvu := hvalid u hu
+        have hcoord : u.1 = (x, y, z) := by
+          have hvx : ValidT (((x, y, z), blob) : Tile) := ⟨by show z < 32; omega, hx, hy⟩
+          have := cid_inj u ((x, y, z), blob) hvu hvx (by rw [← a1, htid]; rfl)
+          exact this
+        rw [List.mem_flatMap] at hu
+        obtain ⟨c, hcb, huc⟩ := hu
+        obtain ⟨L, hL, hcL⟩ := hcellOf c hcb
+        have hsrc := gs.sound L hL c hcL u huc
+        rw [hcoord] at hsrc
+        have hbl : blob = u.2 := by
+          rw [hblob, hslice_data t.off t.len a5, a6]
+        simp only [hsrc, nonEmpty]
+        have hne : ¬ (u.2 = []) := by
+          intro e0
+          rw [e0] at a3
+          simp at a3
+          omega
+        simp only [hne, if_false, hbl]
 
 end VtProofs.PMTilesWrite
